@@ -266,6 +266,10 @@ def exSchemaO : Schema := { enums := [], msgs := [exO, exS] }
 def exJf : Field := { name := [97, 95, 98], json := [97, 66], number := 1, kind := .int32, card := .single, presence := false, oneof := none }
 def exJ : MsgDesc := { name := [74], fields := [exJf] }
 def exSchemaJ : Schema := { enums := [], msgs := [exJ] }
+/-- message T { repeated int32 t = 1; }  ('T'=84 't'=116) -/
+def exTt : Field := { name := [116], json := [116], number := 1, kind := .int32, card := .list, presence := false, oneof := none }
+def exT : MsgDesc := { name := [84], fields := [exTt] }
+def exSchemaT : Schema := { enums := [], msgs := [exT] }
 /-- body {"a": 1, "b": "x"} decoded -/
 def exBodyAB : Dec := .ok [([[97]], .single (.int 1)), ([[98]], .single (.bytes [120]))]
 
@@ -409,5 +413,36 @@ theorem validUTF8_encode (c : Nat) (h : c < 55296 ∨ (57344 ≤ c ∧ c < 11141
       · rename_i h1 h2 h3
         simp [validUTF8, isCont, UInt8.lt_iff_toNat_lt, UInt8.le_iff_toNat_le, UInt8.toNat_ofNat, ← UInt8.toNat_inj]
         (repeat' split) <;> omega
+
+end GB.C04
+
+namespace GB.C04
+
+theorem bodyStageOnto_nil (sch : Schema) (root : MsgDesc) (bd : Binding) (dec : Dec) :
+    bodyStageOnto sch root bd dec [] = bodyStage sch root bd dec := by
+  unfold bodyStageOnto bodyStage
+  rfl
+
+theorem transcodeOnto_nil (sch : Schema) (orc : Oracle) (root : MsgDesc) (bd : Binding) (dec : Dec) (rq : Request) :
+    transcodeOnto sch orc root bd dec rq [] = transcode sch orc root bd dec rq := by
+  unfold transcodeOnto transcode transcodeWith
+  rw [bodyStageOnto_nil]
+
+/-- the accepted prefix of a list of outcomes -/
+def okPrefix : List (Except Err Msg) → List Msg
+  | [] => []
+  | .error _ :: _ => []
+  | .ok m :: rest => m :: okPrefix rest
+
+theorem pump_eq (sch : Schema) (orc : Oracle) (root : MsgDesc) (bd : Binding) (rq : Request) : ∀ (decs : List Dec),
+    pump sch orc root bd rq decs = okPrefix (decs.map (fun d => transcode sch orc root bd d rq)) := by
+  intro decs
+  induction decs with
+  | nil => rfl
+  | cons d rest ih =>
+    simp only [pump, List.map, transcodeOnto_nil]
+    cases h : transcode sch orc root bd d rq with
+    | error e => simp [okPrefix]
+    | ok m => simp [okPrefix, ih]
 
 end GB.C04
